@@ -308,6 +308,10 @@ impl NodeIdxIter {
 }
 
 // ASSUMED (std): `<Vec<T> as AsRef<[T]>>::as_ref` is the slice of the same elements
+/// std::mem::take: moves the value out and leaves `T::default()` behind (what the default IS is not specified here)
+pub assume_specification<T: std::default::Default> [std::mem::take] (x: &mut T) -> (r: T)
+    ensures r == *old(x);
+
 pub assume_specification<T, A: std::alloc::Allocator> [<std::vec::Vec<T, A> as std::convert::AsRef<[T]>>::as_ref] (v: &std::vec::Vec<T, A>) -> (r: &[T])
     ensures r@ == v@;
 
